@@ -40,6 +40,25 @@ the detector's feature sets and the input mesh are untouched (history.inputs_unc
 missing while the cut mesh was never asked for).  When a live object is spent all clauses of the statement are re-checked on it
 (history.final.*).  input_class of a history failure = "hist=<minimal failing history>", derived by dropping calls one at a time
 and replaying on fresh objects while the same clause keeps failing.
+
+Deviations (tasks with "unit" / "sort" / "rot"; input_class suffix ":unit=2^e" / ":sort=False" / ":face_order", in this order when combined).
+A representative subset of the above - main cases and call histories - is repeated
+  * unit of length: with every coordinate multiplied by 2^e (exact in binary floating point), e = -200 and +200.  All clauses of the
+    statement are judged as before (corner positions exactly, against the scaled input).  In addition (unit.same_cut): every length,
+    path length and barycentre distance the cutter compares is the unit-scale one times 2^e exactly, and "optimal cuts" (class
+    docstring) is a notion without a unit, so the reported cut_edges are the same edge ids as on a unit-scale twin (same combinatorics,
+    same argument form, same detector mode) - compared only when the detector (premise, C15's subject) found the same feature edges.
+    Measured on the unchanged tree: silent for |e| <= 250 on all tasks; the detector-free path up to |e| = 480; at |e| >= 400 the
+    feature detector raises FloatingPointError (2^-400) or returns other features (2^400) because fourth powers of lengths leave the
+    double range - outside the bound, not a finding; +-200 leaves 2^200 of headroom for such products.
+  * configuration: mouette.config.sort_neighborhoods = False (documented switch: vertex rings are left in construction order) while the
+    mesh is built, the detector run and the surface cut; restored by try/finally in run_task whatever happens.  Same clauses.
+  * face order: every input face listed first in turn (face 0 is the root of the dual search, edge 0 one of its sides, so every face /
+    many edges take the falsy index 0), under both values of the switch.  Same clauses (the oracle reads the reordered list).
+A failure under a deviation is reported (with the suffix) only if it is about the deviation: the plain configuration (unit scale, sorted rings,
+family face order) must neither show the same clause failing on the same minimal singularity set nor produce the same class on the same
+mesh for another singularity set of that size (ring / face order breaks ties between equally short paths, so WHICH sets run into a known
+defect of the plain code may change); otherwise it is counted (deviation_failure_also_on_plain_configuration) and left to the main tasks.
 """
 from __future__ import annotations
 import itertools
@@ -56,7 +75,8 @@ RULE = ("one case = (family member, coordinate alphabet [ties|generic], feature 
         "mode, set); non-trivial = something has to be cut (closed surface with >= 2 singularities or genus > 0, more "
         "than one border loop, or a singular vertex off the border). History cases: one case = (configuration, state of one cutter "
         "object reached by a history of public calls after run(), next call); states are distinct by the canonical key of all fields of "
-        "the cutter and of the caller's objects")
+        "the cutter and of the caller's objects. Deviation cases: one case = (case of a fixed subset of the above, deviation) with deviation in {coordinates x 2^-200, "
+        "coordinates x 2^200, config.sort_neighborhoods=False, face k listed first for every k, the last two combined}")
 ASSUMPTIONS = [
     "inputs are connected oriented manifold triangle complexes within the size bounds (disconnected members are filtered and counted)",
     "singularities are passed as a list of distinct python ints; the detector is the library's own FeatureEdgeDetector run on the same mesh (verbose off)",
@@ -73,6 +93,11 @@ ASSUMPTIONS = [
     "history search: the answers of the fresh twin are demanded identically (same face corners, same ref_vertex dict, same cut_edges ids) because the code is "
     "deterministic for a given input and argument form; run() again is not a reader, after it only the closing re-check of all clauses and the caller's objects are judged",
     "cut_graph is not queried on a sphere that is left uncut (the statement promises no polyline there)",
+    "unit of length: multiplying doubles by 2^e (|e| <= 200, coordinates of magnitude 2^-5..2^3) is exact and so are all sums, products and square "
+    "roots of the cutter up to that power, hence the unit.same_cut clause demands identical edge ids; it is skipped (counted) when the feature "
+    "detector, which is C15's subject, returns another feature set on the scaled mesh; other exponents are not enumerated",
+    "deviation tasks run a fixed subset of the families (see BOUNDS); deviations are not combined with each other except face order x sort_neighborhoods; "
+    "mouette.config switches other than sort_neighborhoods are left at their defaults",
 ]
 BOUNDS = {
     "quick": "singularity sets: every subset of <=2 vertices + all vertices. SURF triangles n<=5, all 434 connected labelled complexes x {lattice, moment curve} x "
@@ -82,11 +107,17 @@ BOUNDS = {
              "3x4 4x4, 7-vertex torus, torus 3x3 minus 1 face; second cutter on an already used mesh object for SURF(<=5) classes, grids 3x3 / 4x4, octahedron (sets <=1). "
              "Call histories: BFS over the states of one cutter, 6 events, <= 3 state-changing calls deep (every event tried in every state), on the triangle + the 8 classes of "
              "SURF(4..5) (sets <=2 + all) and the 27 SURF(6) classes (7-8 chosen sets) x {no detector, full detector}; grids 3x3 (sets <=1), 4x4 (chosen sets) flat x {none, border-only} "
-             "and fold / bump / plateau x full detector; 6 holey 3x3 grids, one pair of pants, octahedron, icosahedron, 7-vertex torus, torus 3x3 (both alphabets), torus 3x3 minus 1 face",
+             "and fold / bump / plateau x full detector; 6 holey 3x3 grids, one pair of pants, octahedron, icosahedron, 7-vertex torus, torus 3x3 (both alphabets), torus 3x3 minus 1 face. "
+             "Deviations {coordinates x 2^-200, x 2^200, sort_neighborhoods=False}: triangle + 8 SURF(4..5) classes + 27 SURF(6) classes (sets <=2), grids 3x3 4x4 flat / fold / bump / plateau, "
+             "8 holey 3x3 grids, pair of pants, octahedron, icosahedron, 7-vertex torus, torus 3x3, torus 3x3 minus 1 face (sets <=1 + chosen pairs + all), x {no detector, full detector} "
+             "x both alphabets; 9 call-history tasks each (classes, grid 3x3 flat / fold, octahedron, torus 3x3). Face order (every face first in turn) x sort_neighborhoods {True, False}: "
+             "the same classes, grid 3x3 flat / fold / bump, octahedron, torus 3x3, 7-vertex torus on the lattice alphabet (6-8 chosen sets; sets <=2 on <=5 vertices)",
     "thorough": "singularity sets: every subset of <=3 vertices + all vertices (<=2 on the 4x4 grids with 2 faces removed, the pairs of pants and the tori with faces removed). "
                 "As quick, plus: the 15 transposition relabelings of every SURF(6) class; grids 3x3 3x4 3x5 4x4 4x5 5x5 x {tri, tri2}; 4x4 grid with <=2 faces removed; "
                 "4 pairs of pants; torus 3x3 minus <=2 faces, torus 3x4 minus 1 face. Call histories: <= 4 state-changing calls deep; SURF(<=5) classes on both alphabets, "
-                "SURF(6) classes with sets <=2, grids 3x3 3x4 4x4 5x5 with sets <=1, all 71 holey 3x3 grids, closed specimens with sets <=1, 3 tori minus 1 face",
+                "SURF(6) classes with sets <=2, grids 3x3 3x4 4x4 5x5 with sets <=1, all 71 holey 3x3 grids, closed specimens with sets <=1, 3 tori minus 1 face. "
+                "Deviations as quick plus grids 3x4 5x5, 'tri2' grids, 24 holey 3x3 grids on both alphabets, 3 tori minus 1 face, histories of the SURF(6) classes and of the 7-vertex torus; "
+                "face order on both alphabets with sets <=2 on the SURF(6) classes, plus grid 4x4 plateau and the holey grids with a fold",
 }
 PINNED = {"surf3": 2, "surf4": 22, "surf5": 410, "surf6c": 28}
 UNIT_EXPONENTS = (-200, 200)        # unit-of-length deviation: every coordinate x 2^e (measured range of the unchanged tree: see BOUNDS)
@@ -1378,9 +1409,25 @@ def finish(tier, rep: Report):
     need += ["history:" + ev for ev in EVENTS] + ["history:feat=none", "history:feat=border", "history:feat=crease", "history:lazy_results_distinguished",
                                                   "history:topo:sphere", "history:topo:disk", "history:topo:bordered:b>1", "history:topo:closed:g>0",
                                                   "history:topo:bordered:g>0"]
+    # ---- deviations: each one was in force on runs that had something to cut, on both code paths of the cutter, and in call histories
+    for e in UNIT_EXPONENTS:
+        need += ["dev:unit=2^%d" % e, "dev:unit=2^%d:interior_cut_compared:plain" % e, "dev:unit=2^%d:interior_cut_compared:crease" % e,
+                 "history:dev:unit=2^%d" % e]
+    need += ["dev:sort=False", "dev:sort=False:interior_cut:plain", "dev:sort=False:interior_cut:crease", "history:dev:sort=False",
+             "dev:sort=False:some_vertex_ring_is_listed_in_another_order", "dev:face_order", "dev:sort=False:face_order",
+             "dev:face_order:interior_cut:plain", "dev:face_order:interior_cut:crease"]
     for f in need:
         if f not in rep.flags:
             fails.append("coverage flag missing: " + f)
+    if rep.counters.get("config_switch_not_restored"):
+        fails.append("mouette.config.sort_neighborhoods was not put back to True at the end of some task")
+    if rep.counters.get("config_switch_not_in_force"):
+        fails.append("mouette.config.sort_neighborhoods was not False during a run of a ':sort=False' task")
+    if rep.counters.get("unit:cuts_compared_with_unit_scale", 0) < 1000:
+        fails.append("unit of length: fewer than 1000 cuts were compared with their unit-scale twin")
+    if rep.counters.get("unit:detector_found_other_features_than_at_unit_scale", 0) * 10 > rep.counters.get("unit:cuts_compared_with_unit_scale", 0):
+        fails.append("unit of length: the feature detector (premise, C15's subject) found other feature edges on the scaled mesh in more than "
+                     "1 run out of 11: the comparison with the unit scale lost its premise there")
     for kind in ("topology", "interior_cut_edges", "result", "history_states"):
         if len(rep.outcomes.get(kind, ())) < 2:
             fails.append(f"observation {kind} took a single value over the whole run")
